@@ -95,7 +95,12 @@ fn main() {
                 // finding about the library, not a failure of the machinery
                 let ctx = Ctx::new(&args[1], tier);
                 ctx.violation(&format!("panic|{}", p.site_key()), &format!("the library panicked outside a guarded step (explorer set-up): {} at {}:{}", p.message, p.file, p.line), serde_json::json!({"kind":"escaped_panic","message":p.message,"file":p.file,"line":p.line}));
-                ctx.finish(serde_json::json!({"exhaustive": false, "bounds": "aborted by a library panic during set-up"}), vec!["the exploration did not run to completion".into()])
+                if std::env::var("MCX_CHILD").is_ok() {
+                    // the chk-build child of C17 reports to its parent
+                    ctx.finish_child()
+                } else {
+                    ctx.finish(serde_json::json!({"exhaustive": false, "bounds": "aborted by a library panic during set-up"}), vec!["the exploration did not run to completion".into()])
+                }
             } else {
                 eprintln!("machinery error: the check itself panicked");
                 2
